@@ -224,6 +224,158 @@ def run_linear(run):
                     run.add(f"C07/no-runtime-error[{tag}]/path{pi}/{o.name}@{o.loc}", o.hyps, o.goal, "property", inst, replay=rp)
 
 
+def _valid(hyps, goal, ms=4000):
+    """Quick synchronous validity probe (used only to CHOOSE which coefficient to state; the stated obligation is then proved normally)."""
+    sv = z3.Solver()
+    sv.set("timeout", ms)
+    sv.add(*hyps)
+    sv.add(z3.Not(goal))
+    return sv.check() == z3.unsat
+
+
+MM_CASES = [("qint8", None, "qint8", None), ("qint8", None, "qint8", 0), ("qint8", None, "qint8", -1), ("qint8", 0, "qint8", None), ("qint8", -1, "qint8", None),
+            ("qint8", 0, "qint8", -1), ("qfloat8_e4m3fn", None, "qint8", None), ("qint8", None, "qfloat8_e4m3fn", None),
+            ("qint8", None, "plain", None), ("plain", None, "qint8", None), ("plain", None, "qint8", 0)]
+
+
+def aten_mm(run):
+    """aten.mm / aten.bmm on quantized operands (qbytes_ops.mm / bmm): every route (integer GEMM, float product of the codes, fallback)
+    equals the product of the dequantized operands: result[.., i, j] == sum_k deq(a)[.., i, k] * deq(b)[.., k, j]."""
+    for op in ("mm", "bmm"):
+        for qa, axis_a, qb, axis_b in MM_CASES:
+            inst = {"entry": f"aten.{op}", "a": qa, "axis_a": axis_a, "b": qb, "axis_b": axis_b}
+            run.count_instance(**{"mm_op": op, "mm_a": qa, "mm_axis_a": axis_a, "mm_b": qb, "mm_axis_b": axis_b})
+            E = OC.engine(run)
+            n, m, p, bb = z3.Ints("n m p bb")
+            lead = [bb] if op == "bmm" else []
+
+            def prog(E2, op=op, qa=qa, qb=qb, axis_a=axis_a, axis_b=axis_b, lead=lead):
+                for v in (n, m, p, bb):
+                    E2.assume(v >= 1)
+                def mk(q, shape, nm, axis=None):
+                    if q == "plain":
+                        return new_input(E2, nm, "float32", shape)
+                    return OC.H(E2, q, axis, "float32").q(shape, name=nm, axis=axis)
+                a = mk(qa, lead + [n, m], "A", axis_a)
+                b = mk(qb, lead + [m, p], "Bm", axis_b)
+                ad, bd = OC.deq(E2, a), OC.deq(E2, b)
+                out = call_aten(E2, AtenOp(op), [a, b], {})
+                return out, ad, bd
+
+            tag = f"{op}/{qa}-axis{axis_a}/{qb}-axis{axis_b}"
+            try:
+                res = E.explore(Builtin("atenmm", prog), lambda E2: ([], {}), name="C07.atenmm")
+            except Unsupported as u:
+                run.undecide(f"C07/aten/{tag}", u, inst)
+                continue
+            run.absorb(E)
+            if not run.expect_paths(res, f"C07/aten/{tag}", inst):
+                continue
+            rp = lambda mo, sd, i=dict(inst): replay_mm(mo, sd, i)
+            for pi, r in enumerate(res):
+                if r.outcome != "return":
+                    run.add(f"C07/aten/does-not-raise[{tag}]/path{pi}", r.hyps, z3.BoolVal(False), "property", inst, {"outcome": repr(r.value)[:200]}, replay=rp)
+                    continue
+                E.focus(r)
+                out, ad, bd = r.value
+                oshape = lead + [n, p]
+                for o in r.obligations:
+                    if o.kind in ("torch-pre", "callee-pre", "assert"):
+                        run.add(f"C07/aten/no-runtime-error[{tag}]/path{pi}/{o.name}@{o.loc}", o.hyps, o.goal, "property", inst, replay=rp)
+                if not isinstance(out, STensor):
+                    run.add(f"C07/aten/returns-plain-tensor[{tag}]/path{pi}", r.hyps, z3.BoolVal(False), "property", inst, replay=rp)
+                    continue
+                run.add(f"C07/aten/result-shape[{tag}]/path{pi}", r.hyps, lib.shape_eq(out.shape, oshape), "property", inst, replay=rp)
+                if len(out.shape) != len(oshape):
+                    continue
+                ids, inb = idx_vars("o", oshape)
+                E.drain()
+                got = out.elem(ids)
+                impl = [s_ for s_ in sums_in(E, got) if not s_.name.startswith("sum_REF")]
+                k = z3.Int("k")
+                li = ids[:-2]
+                g = lambda kk: ad.elem(li + [ids[-2], kk]) * bd.elem(li + [kk, ids[-1]])
+                gk = g(k)
+                refsum = _sum_term(E, "REFMM", ids, m, g, "float32")
+                facts = E.drain() + list(E.ps.get("lazy_facts", []))
+                if len(impl) != 1:
+                    run.undecide(f"C07/aten/{tag}/path{pi}", f"expected one contraction in the result element, found {len(impl)}", inst)
+                    continue
+                S = impl[0]
+                occ = occurrences(got, S.term.decl().name())
+                if len(occ) != 1:
+                    run.undecide(f"C07/aten/{tag}/path{pi}", "the contraction occurs at several indices in one result element", inst)
+                    continue
+                sargs = [occ[0].arg(t) for t in range(occ[0].num_args())]
+                same_idx = z3.And(*[x == zi(y) for x, y in zip(sargs, ids)]) if len(sargs) == len(ids) else z3.BoolVal(True)
+                fk = S.summand(k)
+                fkr = z3.ToReal(fk) if z3.is_int(fk) else fk
+                St = z3.ToReal(occ[0]) if z3.is_int(occ[0]) else occ[0]
+                facts2 = E.drain()
+                hy = r.hyps + inb + facts + facts2
+                # coefficient independent of k: 1 when the route contracts dequantized values, else the product of the operand scales
+                # at the RESULT's own row / column (the only positions a k-independent scale can come from)
+                R = z3.RealSort()
+                def scale_at(nm, q, axis, rowcol):
+                    if q == "plain":
+                        return z3.RealVal(1)
+                    if axis is None:
+                        return z3.Const(nm + "_s", R)
+                    rank = len(oshape)
+                    f = z3.Function(nm + "_s", *([z3.IntSort()] * rank), R)
+                    pos = axis % rank
+                    args = [z3.IntVal(0)] * rank
+                    args[pos] = {0: ids[0], rank - 2: ids[-2], rank - 1: ids[-1]}.get(pos, z3.IntVal(0)) if rowcol(pos, rank) else z3.IntVal(0)
+                    return f(*args)
+                # a scale along the contracted dimension cannot be factored out: use position 0 there, the relation is then not provable (as it must)
+                ca = scale_at("A", qa, axis_a, lambda pos, rank: pos != rank - 1)
+                cb = scale_at("Bm", qb, axis_b, lambda pos, rank: pos != rank - 2)
+                c = z3.RealVal(1) if _valid(hy + [k >= 0, k < m], gk == fkr) else ca * cb
+                run.add(f"C07/aten/summand-relation[{tag}]/path{pi}", hy + [k >= 0, k < m], z3.And(gk == c * fkr, same_idx), "property", inst, replay=rp, timeout=30)
+                lin = refsum == c * St   # sum_linear (lemmas/Arith.lean) applied to the relation above
+                run.add(f"C07/aten/equals-reference[{tag}]/path{pi}", hy + [lin], got == refsum, "property", inst, replay=rp, timeout=30)
+
+
+def replay_mm(model, seed, inst):
+    import torch
+    from optimum.quanto import absmax_scale, qtypes
+    from optimum.quanto.tensor.quantizers import SymmetricQuantizer
+
+    torch.manual_seed(seed)
+    op = torch.mm if inst["entry"] == "aten.mm" else torch.bmm
+    def mv(nm, d):
+        try:
+            return max(1, min(64, int(str(model.get(nm, d)))))
+        except Exception:
+            return d
+    shapes = [(mv("n", 24), mv("m", 8), mv("p", 8)), (24, 24, 24), (24, 8, 16), (3, 5, 2), (32, 16, 8), (17, 8, 8)]
+    for (n, m, p) in shapes:
+        lead = [] if inst["entry"] == "aten.mm" else [2]
+        a = torch.randn(lead + [n, m])
+        b = torch.randn(lead + [m, p]) * torch.logspace(-2, 2, m)[:, None]
+        def mk(t, q, axis):
+            if q == "plain":
+                return t
+            return SymmetricQuantizer.apply(t, qtypes[q], axis, absmax_scale(t, qtypes[q], axis))
+        try:
+            qa_, qb_ = mk(a, inst["a"], inst["axis_a"]), mk(b, inst["b"], inst["axis_b"])
+        except Exception:
+            continue   # the operand itself cannot be built with this axis (not this property)
+        da = qa_.dequantize() if hasattr(qa_, "dequantize") and inst["a"] != "plain" else qa_
+        db = qb_.dequantize() if hasattr(qb_, "dequantize") and inst["b"] != "plain" else qb_
+        ref = op(da.double(), db.double())
+        try:
+            out = op(qa_, qb_)
+        except Exception as e:
+            return {"what": f"raises {type(e).__name__}: {str(e)[:150]}", "n_m_p": [n, m, p]}
+        if tuple(out.shape) != tuple(ref.shape):
+            return {"what": "output shape differs", "got": list(out.shape), "want": list(ref.shape), "n_m_p": [n, m, p]}
+        if not torch.allclose(out.double(), ref, rtol=1e-4, atol=1e-4 * ref.abs().max().item()):
+            return {"what": "values differ from the product of the dequantized operands", "max_abs_diff": (out.double() - ref).abs().max().item(),
+                    "ref_max": ref.abs().max().item(), "n_m_p": [n, m, p]}
+    return None
+
+
 def build(run):
     from props import conformance
 
@@ -241,7 +393,7 @@ def build(run):
                 f"{OC.QOPS}::mm", f"{OC.QOPS}::bmm", f"{OC.QTENSOR}::QTensor.__torch_function__"):
         run.under_contract(E0, key)
     lib.lean_lemmas(run, ["sum_linear", "flat_div", "flat_mod"])
-    for part in (run_linear,):
+    for part in (run_linear, aten_mm):
         try:
             part(run)
         except Unsupported as u:
@@ -293,6 +445,7 @@ def replay(model, seed, inst):
 def replay_file(path):
     import json
     rec = json.load(open(path))
-    r = replay(rec.get("model") or {}, rec.get("seed", 0), rec["instance"])
+    fn = replay_mm if "entry" in rec["instance"] else replay
+    r = fn(rec.get("model") or {}, rec.get("seed", 0), rec["instance"])
     print(json.dumps(r, indent=1, default=str))
     return 1 if r else 0
